@@ -23,6 +23,8 @@ def build_cases(rng, tier):
         hs = [bufprog.gen_history(r.fork("h%d" % k), prog, r.pick([10, 25, maxlen]), deep=(k == 2), files_only=(be == 'cxx')) for k in range(3)]
         if i % 8 == 3:
             hs.append(bufprog.gen_tower(r.fork("tower"), prog, r.pick([10, 12, 18, 19])))
+        if be == 'cxx' or i % 16 == 7:
+            hs.append(bufprog.gen_reopen_history(r.fork("reopen"), prog, r.pick([2, 3, 4])))
         if i % 8 in (5, 1):
             # includes by yy_switch_to_buffer with a yywrap() that deletes the exhausted buffer and switches back
             hs.append(bufprog.gen_include_tower(r.fork("inc"), prog, r.pick([2, 3, 5, 9])))
